@@ -67,6 +67,7 @@ def setup_inputs(ex: Exec, unit, contract: Contract):
                 pass
             finally:
                 ex.spec_mode = False
+    ex.force_class_fields()
     # declared aliasing: split into worlds
     for pa, pb in contract.may_alias:
         if ex.fork([z3.BoolVal(True), z3.BoolVal(True)]) == 0:
@@ -148,9 +149,19 @@ def finish(ex: Exec, contract: Contract, outcome):
     # frame: everything declared and not in modifies is unchanged (normal and exceptional exits)
     frame_goals = []
     mods = set(contract.modifies)
+    aliased = {}
+    for canon, alts in ex.alias_paths.items():
+        for a in alts:
+            aliased[a] = canon
     for path, (typ, v0) in ex.input_shapes.items():
         if path in mods or any(path.startswith(m + ".") for m in mods):
             continue
+        # in an alias world a field reached through the aliased name is governed by the canonical path's frame
+        ali = next((a for a in aliased if path.startswith(a + ".")), None)
+        if ali is not None:
+            cp = aliased[ali] + path[len(ali):]
+            if cp in mods or any(cp.startswith(m + ".") for m in mods):
+                continue
         try:
             ex.spec_mode = True
             node = ast.parse(path_expr(path), mode="eval").body
